@@ -62,6 +62,49 @@ def apply_edits(root, edits):
     return None
 
 
+def apply_patch(root, patch_file):
+    """apply a unified diff (a stored seeded change) to the scratch copy"""
+    import subprocess
+    r = subprocess.run(['git', 'apply', '--unsafe-paths',
+                        f'--directory={root}', str(patch_file)],
+                       capture_output=True, text=True, cwd=root)
+    if r.returncode:
+        r = subprocess.run(['patch', '-p1', '-s', '-d', str(root), '-i',
+                            str(patch_file)], capture_output=True,
+                           text=True)
+        if r.returncode:
+            return ('patch does not apply to the current tree: '
+                    + (r.stderr or r.stdout)[-200:])
+    return None
+
+
+def seeded_cases(props=None):
+    """the independently written property-breaking changes stored under
+    /verif/seeded: each must be reported by the check of its property"""
+    import json
+    out = []
+    base = pathlib.Path(__file__).resolve().parents[2] / 'seeded'
+    if not base.is_dir():
+        return out
+    for d in sorted(base.iterdir()):
+        meta = d / 'meta.json'
+        patch = d / 'patch.diff'
+        if not (meta.is_file() and patch.is_file()):
+            continue
+        m = json.loads(meta.read_text())
+        prop = m.get('property')
+        if props is not None and prop not in props:
+            continue
+        if m.get('not_decided'):
+            # a documented miss (see its meta.json and DESIGN.md 15)
+            continue
+        out.append({'id': f'seeded-{d.name}', 'prop': prop,
+                    'kind': 'mutant', 'patch': str(patch), 'expect': 'R-',
+                    'desc': 'independent seeded change: '
+                    + str(m.get('needs_to_manifest', ''))[:160]})
+    return out
+
+
 def _run_one(job):
     (repo, case) = job
     from ..run import analyse
@@ -71,14 +114,17 @@ def _run_one(job):
            'desc': case['desc']}
     try:
         make_copy(repo, root)
-        stale = apply_edits(root, case['edits'])
+        if case.get('patch'):
+            stale = apply_patch(root, case['patch'])
+        else:
+            stale = apply_edits(root, case['edits'])
         if stale:
             res['status'] = 'stale'
             res['detail'] = stale
             return res
         # the mutant must still be valid Python
         import ast
-        for ed in case['edits']:
+        for ed in case.get('edits', []):
             ast.parse((pathlib.Path(root) / ed[0]).read_text())
         try:
             code, ev, ctx = analyse(case['prop'], root, 'quick',
@@ -127,7 +173,7 @@ def _run_one(job):
 
 def run_selftest(repo, props=None, jobs=None, ids=None):
     from .catalog import CASES
-    cases = [c for c in CASES
+    cases = [c for c in list(CASES) + seeded_cases(props)
              if (props is None or c['prop'] in props)
              and (ids is None or c['id'] in ids)]
     if not cases:
